@@ -138,6 +138,41 @@ func checkC13(c *Ctx) {
 			}
 		}
 	})
+	// direction 2: the shipped examples (and a sample of the corpus) as recorded runs validated against TraceSem;
+	// the trees of the examples are the real parser's (C01 covers the parser), listing orders and the clock are
+	// resolved by what was logged
+	{
+		var runs []*TraceRun
+		cs := make(chan *Case, 16)
+		go func() {
+			for i, p := range progs {
+				if strings.HasPrefix(p.key, "example:") {
+					cs <- &Case{ID: i, Mode: "run", Src: p.src, Stdin: p.stdin, Trace: true, WantA: true, Fuel: 400000}
+				}
+			}
+			close(cs)
+		}()
+		c.Pool.Run(cs, func(k *Case, r *Result) {
+			if r.Ast == nil || len(r.Trace) == 0 || r.Panic != "" || r.Crash != "" {
+				return
+			}
+			b, _ := json.Marshal(r.Ast)
+			lines := [][]int{}
+			for _, l := range strings.Split(strings.TrimSuffix(progs[k.ID].stdin, "\n"), "\n") {
+				lines = append(lines, cpsOf(l))
+			}
+			runs = append(runs, &TraceRun{Prog: b, Stdin: lines, Events: r.Trace, key: progs[k.ID].key})
+		})
+		var recs []*SemRec
+		for i, r := range corpus {
+			if i%4 == 0 && len(recs) < 150 {
+				recs = append(recs, r)
+			}
+		}
+		runs = append(runs, c.recordTraces(recs)...)
+		n := c.validateTraces("examples+corpus", runs)
+		c.cov("trace_validation", map[string]interface{}{"recorded_runs": len(runs), "accepted_by_TraceSem": n})
+	}
 	// (b) the same program in many FRESH processes: Go's per-process map seeds play the role of the schedule
 	var wg sync.WaitGroup
 	var mu sync.Mutex
